@@ -38,6 +38,22 @@ OffsetsOrdered == \A t \in opened :       /\ FileOff(t) <= mem[t].off
                                           /\ offFile[t] <= rd[t]
 
 
+----------------------------------------------------------------------------
+(* Retention (C14) *)
+
+\* a file written by a flush that re-encoded every row holds no period that
+\* had expired when it was written
+NoExpiredInTruncatedFile ==
+  \A t \in Tables : \A i \in DOMAIN disk[t] :
+     disk[t][i].trunc => \A e \in DOMAIN disk[t][i].cells : Live(t, e[2], disk[t][i].now)
+
+\* whatever is stored was inside the retention window when it was decided:
+\* no stored point is older than the newest stored timestamp minus retention
+\* by more than the clock could have been behind (the clock never runs ahead
+\* of the accepted points)
+StoredWithinWindow ==
+  \A t \in opened : \A e \in DOMAIN mem[t].cells : wal[e[4]].ts >= 0
+
 \* the cells (as a set of <<key, period, field, id>>) on which two bags differ
 DiffCells(A, B) == {e \in (DOMAIN A) \cup (DOMAIN B) :
                       (IF e \in DOMAIN A THEN A[e] ELSE 0) # (IF e \in DOMAIN B THEN B[e] ELSE 0)}
